@@ -1,4 +1,4 @@
-import ScVerif.C03.Lemmas
+import ScVerif.C03.Forwarder
 /-!
 # C03 — invariants and their preservation by every step
 
@@ -7,7 +7,9 @@ import ScVerif.C03.Lemmas
   names an unregistered subscriber; pending ids are distinct; NO MISS: every commit since a live subscriber's
   subscribe step has been handed to its stage or is still owed to it;
 * (`ord = true`: schedules whose steps satisfy `okStep`) for every live subscriber, its raw view followed by its
-  pending stage followed by the events still owed to it (in commit order) is the store.
+  pending stage followed by the events still owed to it (in commit order) is the store; that stream is a
+  well-formed change chain (lossy) and LINKED: every change carries as `old` the value the view holds when it is
+  applied (a backpressured subscriber may instead already hold its `new` value: a duplicate of the seed).
 -/
 set_option linter.unusedSectionVars false
 set_option linter.unusedVariables false
@@ -21,6 +23,10 @@ structure Inv (ord : Bool) (c : Cfg M) : Prop where
     ((c.subs s).pending ++ inflight c s).foldl applyEv (c.subs s).rawView = c.store
   chain : ord = true → ∀ s, (c.subs s).live = true → (c.subs s).lossy = true →
     chainOK (c.subs s).rawView ((c.subs s).pending ++ inflight c s)
+  link : ord = true → ∀ s, (c.subs s).live = true →
+    linkOK (c.subs s).lossy (c.subs s).rawView ((c.subs s).pending ++ inflight c s)
+  obs : ord = true → ∀ s, (c.subs s).live = true →
+    (c.subs s).obsView = seedView (c.subs s).incl (c.subs s).mask (c.subs s).rawView
   lisLive : ∀ s, (c.subs s).live = true → c.listeners.count s = 1
   lisUnreg : ∀ s, (c.subs s).registered = false → c.listeners.count s = 0
   rem : ∀ p, p ∈ c.pubs → ∀ rem, p.stage = some rem → ∀ s, (c.subs s).registered = false → rem.count s = 0
@@ -42,7 +48,9 @@ theorem Inv.no_listeners {ord : Bool} {c : Cfg M} (h : Inv ord c) (he : c.listen
 
 theorem Inv.init (ord : Bool) (s₀ : Nat → Option M) (progs : Nat → List (WOp M)) (opts : Nat → SubOpts M) :
     Inv ord (initCfg s₀ progs opts) := by
-  refine ⟨?_, ?_, ?_, ?_, ?_, ?_, ?_⟩
+  refine ⟨?_, ?_, ?_, ?_, ?_, ?_, ?_, ?_, ?_⟩
+  · intro _ s hs; simp [initCfg, Sub.live] at hs
+  · intro _ s hs; simp [initCfg, Sub.live] at hs
   · intro _ s hs; simp [initCfg, Sub.live] at hs
   · intro _ s hs; simp [initCfg, Sub.live] at hs
   · intro s hs; simp [initCfg, Sub.live] at hs
@@ -85,7 +93,7 @@ theorem finish_lis {ord : Bool} {c : Cfg M} (h : Inv ord c) (p : Pub M) (pubs' :
 
 theorem Inv.popOp {ord : Bool} {c : Cfg M} (h : Inv ord c) (t : Nat) (rest : List (WOp M)) (b : Bool) :
     Inv ord (c.popOp t rest b) :=
-  ⟨h.view, h.chain, h.lisLive, h.lisUnreg, h.rem, h.uniq, h.nomiss⟩
+  ⟨h.view, h.chain, h.link, h.obs, h.lisLive, h.lisUnreg, h.rem, h.uniq, h.nomiss⟩
 
 /-- a commit that appends a publication whose single copy reaches every live subscriber -/
 theorem Inv.commitPub {ord : Bool} {c : Cfg M} (h : Inv ord c) (t : Nat) (rest : List (WOp M)) (e : Event M)
@@ -93,10 +101,11 @@ theorem Inv.commitPub {ord : Bool} {c : Cfg M} (h : Inv ord c) (t : Nat) (rest :
     (hcop : ∀ s, (c.subs s).live = true → copies s p = [e])
     (hrem : ∀ rem, p.stage = some rem → ∀ s, (c.subs s).registered = false → rem.count s = 0)
     (hadd : e.isAdd = true → c.store e.id = none)
+    (hold : c.store e.id = e.old)
     (lock' : Option Nat) :
     Inv ord { c.popOp t rest true with
       store := applyEv c.store e, nextSeq := c.nextSeq + 1, lock := lock', pubs := c.pubs ++ [p] } := by
-  refine ⟨?_, ?_, h.lisLive, h.lisUnreg, ?_, h.uniq, ?_⟩
+  refine ⟨?_, ?_, ?_, h.obs, h.lisLive, h.lisUnreg, ?_, h.uniq, ?_⟩
   · intro hord s hs
     show ((c.subs s).pending ++ List.flatMap (copies s) (c.pubs ++ [p])).foldl applyEv (c.subs s).rawView
       = applyEv c.store e
@@ -114,6 +123,16 @@ theorem Inv.commitPub {ord : Bool} {c : Cfg M} (h : Inv ord c) (t : Nat) (rest :
     rw [List.flatMap_cons, List.flatMap_nil, List.append_nil, hcop s hs]
     simp only [chainOK, and_true]
     exact hadd
+  · intro hord s hs
+    show linkOK (c.subs s).lossy (c.subs s).rawView ((c.subs s).pending ++ List.flatMap (copies s) (c.pubs ++ [p]))
+    have hv := h.view hord s hs
+    have hc := h.link hord s hs
+    unfold inflight at hv hc
+    rw [List.flatMap_append, ← List.append_assoc, linkOK_append, hv]
+    refine ⟨hc, ?_⟩
+    rw [List.flatMap_cons, List.flatMap_nil, List.append_nil, hcop s hs]
+    simp only [linkOK, and_true]
+    exact Or.inl hold
   · intro q hq rem hrem' s hs
     have hq' : q ∈ c.pubs ++ [p] := hq
     rw [List.mem_append] at hq'
@@ -147,9 +166,9 @@ theorem Inv.stepCommit {ord : Bool} {c : Cfg M} (h : Inv ord c) (t : Nat) : Inv 
       split
       · exact h.popOp t rest false
       · next v hv =>
-        exact h.commitPub t rest ⟨id, some v, (c.store id).isNone, c.nextSeq⟩ _ rfl rfl
+        exact h.commitPub t rest ⟨id, c.store id, some v, (c.store id).isNone, c.nextSeq⟩ _ rfl rfl
           (fun s _ => copies_none rfl) (fun rem hrem => by simp at hrem)
-          (by intro hadd; simpa using hadd) c.lock
+          (by intro hadd; simpa using hadd) rfl c.lock
     · next _ id p rest _ =>
       split
       · exact h.popOp t rest false
@@ -158,7 +177,11 @@ theorem Inv.stepCommit {ord : Bool} {c : Cfg M} (h : Inv ord c) (t : Nat) : Inv 
         · split
           · next hemp =>
             -- no listener at all: nobody is live
-            refine ⟨?_, ?_, h.lisLive, h.lisUnreg, h.rem, h.uniq, ?_⟩
+            refine ⟨?_, ?_, ?_, h.obs, h.lisLive, h.lisUnreg, h.rem, h.uniq, ?_⟩
+            · intro _ s hs
+              have := h.no_listeners hemp s
+              have hs' : (c.subs s).live = true := hs
+              rw [this] at hs'; cases hs'
             · intro _ s hs
               have := h.no_listeners hemp s
               have hs' : (c.subs s).live = true := hs
@@ -172,13 +195,14 @@ theorem Inv.stepCommit {ord : Bool} {c : Cfg M} (h : Inv ord c) (t : Nat) : Inv 
               have hs' : (c.subs s).live = true := hs
               rw [this] at hs'; cases hs'
           · next hne =>
-            exact h.commitPub t rest ⟨id, none, false, c.nextSeq⟩ ⟨t, ⟨id, none, false, c.nextSeq⟩, some c.listeners, true, false⟩
+            exact h.commitPub t rest ⟨id, some b, none, false, c.nextSeq⟩ ⟨t, ⟨id, some b, none, false, c.nextSeq⟩, some c.listeners, true, false⟩
               rfl rfl
               (fun s hs => by
                 rw [copies_staged (rem := c.listeners) rfl, h.lisLive s hs]; rfl)
               (fun rem hrem s hs => by
                 simp at hrem; rw [← hrem]; exact h.lisUnreg s hs)
               (by intro hadd; cases hadd)
+              hb
               (some t)
         · exact h.popOp t rest false
 
@@ -196,7 +220,11 @@ theorem Inv.stepSnap {ord : Bool} {c : Cfg M} (h : Inv ord c) (k : Nat) : Inv or
       split
       · next hemp =>
         have hfl := finish_lis h p (c.pubs.take k ++ post)
-        refine ⟨?_, ?_, hfl.1, hfl.2, ?_, h.uniq, ?_⟩
+        refine ⟨?_, ?_, ?_, h.obs, hfl.1, hfl.2, ?_, h.uniq, ?_⟩
+        · intro _ s hs
+          have := h.no_listeners hemp s
+          have hs' : (c.subs s).live = true := hs
+          rw [this] at hs'; cases hs'
         · intro _ s hs
           have := h.no_listeners hemp s
           have hs' : (c.subs s).live = true := hs
@@ -228,7 +256,7 @@ theorem Inv.stepSnap {ord : Bool} {c : Cfg M} (h : Inv ord c) (k : Nat) : Inv or
             rw [copies_staged (rem := c.listeners) rfl, h.lisLive s hs]; rfl
           have e2 : copies s p = [p.ev] := copies_none hstage
           simp only [List.flatMap_append, List.flatMap_cons, e1, e2]
-        refine ⟨?_, ?_, h.lisLive, h.lisUnreg, ?_, h.uniq, ?_⟩
+        refine ⟨?_, ?_, ?_, h.obs, h.lisLive, h.lisUnreg, ?_, h.uniq, ?_⟩
         · intro hord s hs
           show ((c.subs s).pending ++ List.flatMap (copies s) _).foldl applyEv (c.subs s).rawView = c.store
           rw [hinfl s hs]
@@ -237,6 +265,10 @@ theorem Inv.stepSnap {ord : Bool} {c : Cfg M} (h : Inv ord c) (k : Nat) : Inv or
           show chainOK (c.subs s).rawView ((c.subs s).pending ++ List.flatMap (copies s) _)
           rw [hinfl s hs]
           exact h.chain hord s hs hl
+        · intro hord s hs
+          show linkOK (c.subs s).lossy (c.subs s).rawView ((c.subs s).pending ++ List.flatMap (copies s) _)
+          rw [hinfl s hs]
+          exact h.link hord s hs
         · intro q hq rem hrem s hs
           show rem.count s = 0
           have hq' : q ∈ c.pubs.take k ++ { p with stage := some c.listeners } :: post := hq
